@@ -190,6 +190,10 @@ func (m *TransferShare) handlerTransferShares(
 	from, to common.Address,
 	sharesInt *big.Int,
 ) (*big.Int, *big.Int, error) {
+	// a transfer to oneself would write the stale recipient copy over the reduced sender delegation
+	if from == to {
+		return nil, nil, errors.New("from and to cannot be the same")
+	}
 	validator, err := m.stakingKeeper.GetValidator(ctx, valAddr)
 	if err != nil {
 		return nil, nil, err
